@@ -260,6 +260,10 @@ type Store struct {
 	// that is recorded (DeviceLookupsWithoutDeadline) and answered at once with a wrapped context.DeadlineExceeded.
 	BlockDeviceLookup            atomic.Bool
 	DeviceLookupsWithoutDeadline atomic.Int64
+	// StubTerminateSession: the storage ends sessions only through the optional TerminateSessionFromRequest; the
+	// plain TerminateSession of the Storage interface is a stub that does nothing (a storage written against the newer
+	// interface). Only meaningful together with Caps.Extras.
+	StubTerminateSession bool
 	// NaiveSecrets makes AuthorizeClientIDSecret a plain string comparison with the stored secret, as the
 	// repository's example storage does: a client stored without a secret "matches" the empty secret. The default
 	// (false) refuses every client that has no secret.
@@ -892,6 +896,9 @@ func (s *Store) TerminateSession(ctx context.Context, userID, clientID string) e
 	_, ferr := s.enter("TerminateSession", userID, clientID, "", nil)
 	if ferr != nil {
 		return ferr
+	}
+	if s.StubTerminateSession {
+		return nil
 	}
 	s.terminate(userID, clientID)
 	return nil
